@@ -124,7 +124,7 @@ func TestC18Programs(t *testing.T) {
 	col := evid.New("C18", "programs", "bytecode verifier (known opcodes with complete operands, jump targets on instruction starts inside the body, constant references exist and name strings where a name is needed, function bodies return on every path, min-stack-depth data-flow over ALL paths never below what an instruction pops) applied via the hook to main and function bodies, optimized and unoptimized, of every generated program (all program generators) and of stressor programs at the 16-bit limits; plus: no run ends in one of the machine's internal errors; non-trivial = >=2 jumps or >=1 function body; distinct by script text")
 	replayKnown(t, col, "C18")
 	optsList := []gen.ProgOpts{
-		{Depth: 3, Block: 3, Ternary: true, Switch: true, EarlyRet: true, IncDec: true, BigInts: true, OptBias: true, NoSqrtFold: true},
+		{Depth: 3, Block: 3, Ternary: true, Switch: true, EarlyRet: true, IncDec: true, BigInts: true, OptBias: true, PoolShift: true, NoSqrtFold: true},
 		{Depth: 3, Block: 3, Funcs: 3, Clash: true, Ternary: true, Switch: true, EarlyRet: true, IncDec: true, ErrStmts: true, NoSqrtFold: true},
 		{Depth: 4, Block: 2, Funcs: 2, OptBias: true, BigInts: true, Ternary: true, Switch: true, EarlyRet: true, NoSqrtFold: true},
 	}
